@@ -9,3 +9,6 @@ import WsVerif.Props.C02
 import WsVerif.Props.C10
 import WsVerif.Model.Track
 import WsVerif.Props.C19
+import WsVerif.Model.Select
+import WsVerif.Model.SelectFixed
+import WsVerif.Props.C14
